@@ -160,4 +160,14 @@ example : trySend 4 { credit := some 0 } [1, 2, 3, 4] [9, 9] = ({ credit := some
 example : trySend 4 { credit := some 3 } [1, 2] [9, 9] = ({ wire := [1, 2, 9], credit := some 0 }, [9], .ok) := by
   decide
 
+/-- **Publishing never waits** (socket level): in the World model a `send` on a PUB socket completes
+in its FIRST poll whatever the state of every subscriber's connection — stalled, full, broken —
+and whatever the message: the result is never `Pending`. -/
+theorem C12_publish_never_waits (w : World) (sid : Nat) (m : Msg) :
+    (pubSend w sid m).2 ≠ .pending := by
+  unfold pubSend
+  split
+  · simp
+  · simp
+
 end Zmq.C12
